@@ -194,6 +194,77 @@ func init() {
 				}
 			}
 		}
+		// ---- (1b) the manager was built from a listing taken earlier: the count changed in between
+		// (another actor, or this manager's own previous call) -------------------------------------------
+		for listed := 0; listed <= 4; listed++ {
+			for live := 0; live <= 4; live++ {
+				for nw := 0; nw <= 4; nw++ {
+					for _, twoCalls := range []bool{false, true} {
+						idx++
+						if !c.Mine(idx) {
+							continue
+						}
+						cs := map[string]interface{}{"listed": listed, "live": live, "new": nw, "second_call_on_same_manager": twoCalls}
+						cli := fake.NewSimpleClientset()
+						sts := c18Sts("rep1", int32(listed), 1, [3]int32{int32(listed), int32(listed), int32(listed)})
+						cli.AppsV1().StatefulSets(c18NS).Create(context.TODO(), sts, metav1.CreateOptions{})
+						for i := 0; i < 5; i++ {
+							p := &corev1.PersistentVolumeClaim{}
+							p.Name, p.Namespace = claimName(0, "rep1", i), c18NS
+							cli.CoreV1().PersistentVolumeClaims(c18NS).Create(context.TODO(), p, metav1.CreateOptions{})
+						}
+						m := k8sshard.VerifNewShardManager(cli, sts, 8080, true, c18Log(), nil)
+						old := live
+						if twoCalls {
+							// the manager itself moves the count from listed to live first
+							if err := m.ChangeScale(int32(live)); err != nil {
+								viol("C18:changescale-error", "scale", err.Error(), cs)
+								continue
+							}
+							// the controller re-creates the claims of the live ordinals
+							for i := 0; i < live; i++ {
+								p := &corev1.PersistentVolumeClaim{}
+								p.Name, p.Namespace = claimName(0, "rep1", i), c18NS
+								cli.CoreV1().PersistentVolumeClaims(c18NS).Create(context.TODO(), p, metav1.CreateOptions{})
+							}
+						} else {
+							g, _ := cli.AppsV1().StatefulSets(c18NS).Get(context.TODO(), "rep1", metav1.GetOptions{})
+							lv := int32(live)
+							g.Spec.Replicas = &lv
+							cli.AppsV1().StatefulSets(c18NS).Update(context.TODO(), g, metav1.UpdateOptions{})
+						}
+						before := listClaims(cli)
+						err := m.ChangeScale(int32(nw))
+						r.States++
+						r.Transitions++
+						r.Nontrivial++
+						if err != nil {
+							viol("C18:changescale-error", "scale", err.Error(), cs)
+							continue
+						}
+						g, _ := cli.AppsV1().StatefulSets(c18NS).Get(context.TODO(), "rep1", metav1.GetOptions{})
+						if *g.Spec.Replicas != int32(nw) {
+							viol("C18:replicas:stale-listing", "replicas", fmt.Sprintf("listed %d, live %d, ChangeScale(%d): spec.replicas=%d", listed, live, nw, *g.Spec.Replicas), cs)
+						}
+						after := map[string]bool{}
+						for _, n := range listClaims(cli) {
+							after[n] = true
+						}
+						for _, n := range before {
+							var ord int
+							fmt.Sscanf(n[strings.LastIndex(n, "-")+1:], "%d", &ord)
+							should := ord >= nw && ord < old
+							if !after[n] && !should {
+								viol("C18:claim-deleted:stale-listing", "claims", fmt.Sprintf("listed %d, live %d, ChangeScale(%d) deleted %s", listed, live, nw, n), cs)
+							}
+							if after[n] && should {
+								viol("C18:claim-kept:stale-listing", "claims", fmt.Sprintf("listed %d, live %d, ChangeScale(%d) kept %s", listed, live, nw, n), cs)
+							}
+						}
+					}
+				}
+			}
+		}
 		// ---- (2) Shards(): every pod list order, IP pattern, missing ordinal ---------------------
 		maxPods := 4
 		for n := 0; n <= maxPods; n++ {
@@ -274,6 +345,56 @@ func init() {
 								r.Sample(3, map[string]interface{}{"case": cs})
 							}
 						})
+					}
+				}
+			}
+		}
+		// ---- (2b) many pods: ordinals with more than one digit (reverse and rotated list orders) ---------
+		for _, n := range []int{10, 11, 12, 23} {
+			for _, order := range []string{"ascending", "reverse", "rotated", "lexicographic"} {
+				idx++
+				if !c.Mine(idx) {
+					continue
+				}
+				pods := make([]corev1.Pod, n)
+				for i := range pods {
+					pods[i].Name = fmt.Sprintf("rep1-%d", i)
+					pods[i].Status.PodIP = fmt.Sprintf("10.0.1.%d", i+1)
+				}
+				listed := make([]corev1.Pod, 0, n)
+				switch order {
+				case "ascending":
+					listed = append(listed, pods...)
+				case "reverse":
+					for i := n - 1; i >= 0; i-- {
+						listed = append(listed, pods[i])
+					}
+				case "rotated":
+					listed = append(append(listed, pods[n/2:]...), pods[:n/2]...)
+				case "lexicographic":
+					listed = append(listed, pods...)
+					sort.Slice(listed, func(a, b int) bool { return listed[a].Name < listed[b].Name })
+				}
+				cs := map[string]interface{}{"pods": n, "order": order}
+				sts := c18Sts("rep1", int32(n), 1, [3]int32{int32(n), int32(n), int32(n)})
+				m := k8sshard.VerifNewShardManager(fake.NewSimpleClientset(), sts, 8080, false, c18Log(), func(lb map[string]string) (*corev1.PodList, error) {
+					return &corev1.PodList{Items: listed}, nil
+				})
+				sh, err := m.Shards()
+				r.States++
+				r.Transitions++
+				r.Nontrivial++
+				if err != nil || len(sh) != n {
+					viol("C18:shards-count", "shards", fmt.Sprintf("%d pods, %d shards (%v)", n, len(sh), err), cs)
+					continue
+				}
+				for i, s := range sh {
+					var url string
+					s.APIGet = func(u string, ret interface{}) error { url = u; return fmt.Errorf("recorded") }
+					_, _ = s.RuntimeInfo()
+					if s.ID != pods[i].Name || !strings.HasPrefix(url, fmt.Sprintf("http://%s:8080/", pods[i].Status.PodIP)) || !s.Ready {
+						viol("C18:order:many-pods", "order", fmt.Sprintf("%d pods listed %s: position %d holds %q (%s)", n, order, i, s.ID, url), cs)
+						break
 					}
 				}
 			}
